@@ -24,6 +24,7 @@ from liquid2.builtin import quote_identifier
 from liquid2.builtin import parse_string_or_path
 from liquid2.exceptions import LiquidSyntaxError
 from liquid2.exceptions import TemplateNotFoundError
+from liquid2.stringify import to_liquid_string
 
 if TYPE_CHECKING:
     from liquid2 import RenderContext
@@ -71,11 +72,11 @@ class IncludeNode(Node):
 
     def render_to_output(self, context: RenderContext, buffer: TextIO) -> int:
         """Render the node to the output buffer."""
-        name = self.name.evaluate(context)
+        name = to_liquid_string(self.name.evaluate(context))
 
         try:
             template = context.env.get_template(
-                str(name), context=context, tag=self.tag
+                name, context=context, tag=self.tag
             )
         except TemplateNotFoundError as err:
             err.token = self.name.token
@@ -114,11 +115,11 @@ class IncludeNode(Node):
         self, context: RenderContext, buffer: TextIO
     ) -> int:
         """Render the node to the output buffer."""
-        name = await self.name.evaluate_async(context)
+        name = to_liquid_string(await self.name.evaluate_async(context))
 
         try:
             template = await context.env.get_template_async(
-                str(name), context=context, tag=self.tag
+                name, context=context, tag=self.tag
             )
         except TemplateNotFoundError as err:
             err.token = self.name.token
